@@ -7,7 +7,8 @@
    Definitions only; proofs are in Proofs/Vers*.v.
 
    Zone content is abstracted to a sorted association list key -> value:
-     key 0 = SOA serial at the origin, key 1 = TXT at the origin, key k>=2 = A record of name k.
+     key 0 = SOA serial at the origin, key 1 = TXT at the origin, key k>=2 = one rdataset of some
+     other name (the harness maps keys to (name, type) pairs, including names below a delegation).
    Python partial operations are explicit: deque[0] / deque[-1] on an empty deque, `assert`,
    set.remove of a missing element yield `Internal`; KeyError / ValueError / AlreadyEnded raised
    on purpose by the code are `Lib`. *)
@@ -307,7 +308,8 @@ Definition view (s : st) : obs :=
   L [ L (map (fun v => I (vid v)) (versions s));
       L (map (fun r => L [I (rh r); I (rvid r); obs_of_ocontent (read s (rh r))]) (readers s));
       ob (match wtxn s with Some _ => true | None => false end);
-      match last_opt (versions s) with Some v => obs_of_content (vcont v) | None => N end ].
+      match last_opt (versions s) with Some v => obs_of_content (vcont v) | None => N end;
+      I 0 (* number of mutable objects found in the retained versions: the harness counts them *) ].
 
 Definition obs_of_result (r : result) : obs :=
   match r with
